@@ -91,6 +91,11 @@ CHECKS["C07"] = dict(
     note="Bounds: n, m <= 3 quick (4 thorough), 1 x m and n x 1 included; chunked distance up to 4 x 4 with symbolic chunk size. Trusted: the optimality / termination of pynndescent's pivoting loop itself (contract stub) and float64 rounding (Real arithmetic) - the statement's 1e-9 / 1e-7 tolerances concern exactly that part. Replays: transport_plan against scipy's LP solver; the orientation cases under NUMBA_DISABLE_JIT=1 with the arguments of transport_plan recorded.",
     ref="4/C07")
 
+CHECKS["C08"] = dict(
+    text="Bounded symbolic model checking of the plumbing the repository owns around the optimal-transport solve, on the real WassersteinVectorizer.transform (sparse-matrix, list and generator input) started from a directly constructed fitted state with symbolic reference vectors / distribution / components: (A) with the per-row kernels replaced by an uninterpreted per-row function and memory_size a symbolic integer, every row is embedded exactly once, in order, from its own CSR segment / list element, the output is F(row_i) @ components.T for every block size, the weights reaching the sparse kernel are the row normalised to one, and the spherical flag and metric reaching the kernel are those fit uses, in every input format; (B) with the real internal kernels and real chunked distance and only the LP solve uninterpreted (plan = U(p, q, cost)), rescaling a row by c > 0, repeating rows in a longer batch and passing the same data as lists instead of a sparse matrix give the identical embedding, the caller's list arrays are never written, and truncation to max_distribution_size keeps the largest weights, renormalised, each with its own vector.",
+    note="Bounds: <= 3-5 rows with <= 2-3 support points, 1-2 reference points of dimension 1, memory_size symbolic over every block size from 1 row to all rows. Not decided (LP uniqueness / floating-point SVD, listed as uncovered in the evidence): invariance under zero-weight padding, permutation and splitting of support points; distance preservation under a full-rank SVD; the Sinkhorn and heuristic methods; fit-time block loops.",
+    ref="4/C08")
+
 NOT_YET = {}
 
 
